@@ -303,6 +303,9 @@ def _run_split(case, ctx):
             return violated({"what": "segmentation() marker differs from 'value > threshold'",
                              "values": tr.getAnalyticalFeature("v"), "threshold": 1.5, "mode": case.get("mode"),
                              "got": got, "expected": markers}, sig, nontrivial, cls)
+    if (n + sum(markers)) % 4 == 1:
+        tr, _how = gen.derive(tr, (n, markers, via))
+        tr.uid = "src"
     src_obs = [tr.getObs(i) for i in range(n)]
     before = _snapshot(tr)
     index_of = {t: i for i, t in enumerate(before["t"])}
